@@ -202,7 +202,7 @@ func FramesToFrameRange(frames []int, sorted bool, zfill int) string {
 		start = zfillInt(frames[0], zfill)
 		end = zfillInt(frames[i], zfill)
 		buf.WriteString(fmt.Sprintf("%s-%s", start, end))
-		if step > 1 {
+		if step > 1 || step < -1 {
 			buf.WriteString(fmt.Sprintf("x%d", step))
 		}
 		frames = frames[i+1:]
